@@ -118,6 +118,25 @@ CHECKS["C10"] = dict(
     design_ref="DESIGN.md section 4, C10",
     note="Trusted: AM as monitor (bound by C06/C01); calls after DONE/finish are unspecified and only compared with the machine; empty chunks are exercised under C12's zero-length option.")
 
+CHECKS["C03"] = dict(
+    category="model_checking",
+    technique="stateless exhaustive exploration of all operation sequences (inputs) <= L on the real C built with ASan+UBSan+LSan, under every string-storage configuration, with in-driver invariants after every call",
+    text="Buffer-heavy 'operation interpreter' programs (each input byte selects an append / char-append / constant assignment / delete / length / in- and out-of-range index operation on str[2], unterminated str[2], "
+         "raw{uint16_t}, str[3] with a default, str[4], with sentinel outputs after every buffer) plus corpus and feature programs are built with clang AddressSanitizer, UndefinedBehaviorSanitizer and LeakSanitizer "
+         "under every storage configuration {in-struct, heap, heap-on-demand} x {delete frees} x {char, uint8_t} x {safe, unsafe indexing (in-range programs)} x {-O1,-O2,-O3}; every string <= L over the selector alphabet "
+         "is executed in one chunk and byte-wise (exact-size heap chunks, heap state struct), then the parser's free function runs. After every call: counter <= capacity, terminator present, buffer non-NULL when "
+         "length > 0, sentinels intact, pointers NULL after free. Constants and defaults that do not fit must be rejected at compile time.",
+    design_ref="DESIGN.md section 4, C03",
+    note="Trusted: clang 14 sanitizers as monitors; reads of never-written bytes are avoided by construction (no MSan); which handler an overflow reaches is C01/C06's subject; counter-width wrap-around of 256-byte strings is caught by C06's feat-bigstr, not here.")
+CHECKS["C12"] = dict(
+    category="model_checking",
+    technique="differential exhaustive exploration of the real C: every string <= L, one chunk and byte-wise, trace hashes compared between the default build and a pairwise (thorough: 3-wise) covering array of representation option sets",
+    text="Each program (buffer-operation interpreters, corpus, feature, yield and universe programs) is built under every row of a covering array over ten representation factors (string storage x4, char/uint8_t, hook placement, "
+         "user pointer, packed enums, pragma once, C++ guard, direct/indirect pointer, zero-length support, range-collapse threshold x4); a driver compiled with the parser hashes, for every string <= L over the program's alphabet, "
+         "the representation-independent trace (result codes, hook sequence with arguments and the outputs visible to each hook, yields, final contents and lengths); the hash lists must equal the default build's.",
+    design_ref="DESIGN.md section 4, C12",
+    note="Trusted: gcc -O1; pairs/triples of option values rather than the full product; offsets are excluded (direct mode cannot report them).")
+
 NOT_YET = {
 }
 
